@@ -83,6 +83,7 @@ def module_ident(ctx, P):
     _ensure(ctx, P + "/header-context", lambda n: c14.rule_header_context(ctx, R=n))
     _ensure(ctx, P + "/note-walk", lambda n: c14.rule_note_walk(ctx, R=n))
     _ensure(ctx, P + "/text-fold", lambda n: c14.rule_text_fold(ctx, R=n))
+    _ensure(ctx, P + "/section-name-exact", lambda n: c14.rule_section_name_exact(ctx, R=n))
 
 
 def destination(ctx, P):
